@@ -288,6 +288,53 @@ static void long_stream_rekey(uint64_t idx, const vh_cipher *c, vh_rng *r0)
     }
 }
 
+/* xbe, change counts: an object is used, then its key / tweaked key / tweak is changed exactly N times in a row (N around 2^8 and
+   2^16, where narrow generation counters wrap), then used again.  What it returns must equal what a fresh object returns that only
+   ever saw the last of those values: whatever the object remembers about earlier keys or tweaks must not depend on how many there were. */
+static void change_count_case(uint64_t idx, const vh_cipher *c, vh_rng *r)
+{
+    static const unsigned NS[] = {255, 256, 257, 511, 512, 513, 65535, 65536, 65537, 1, 2, 131072};
+    unsigned N = NS[(idx / 40) % 12], kind = (unsigned)((idx / 480) % 3), k; int be, nbe = maxbe[c->id] + 1; char pfx[160];
+    uint8_t key[48], tw[16], ctr[16], last[48], in[300], o1[300], o2[300], w1[300], w2[300];
+    vh_rand_bytes(r, key, 48); vh_rand_bytes(r, tw, 16); vh_rand_bytes(r, ctr, 16); vh_rand_bytes(r, in, sizeof(in));
+    if (kind == 1 && !c->has_tkey) kind = 0;
+    if (kind == 2 && !(c->has_tkey || c->id == CIPH_MANTIS)) kind = 0;
+    for (be = 0; be < nbe; ++be) {
+        vh_handle h, f; int tweaked = (kind != 0) && c->has_tkey, ra = 1, rb = 1; unsigned tl = c->id == CIPH_MANTIS ? 8 : c->bb;
+        vh_rng q; vh_rng_seed(&q, vh_rand(r), 0xC9, 7);
+        memset(&h, 0, sizeof(h)); memset(&f, 0, sizeof(f)); vh_set_cap(be);
+        snprintf(pfx, sizeof(pfx), "%s:%s:%s:change-count", prop, c->name, vh_backend_names[be]); vh_set_crash_key(pfx);
+        vh_call_begin("change-count history");
+        ra &= c->ctr_init(&h);
+        ra &= tweaked ? c->ctr_set_tkey(&h, key, 2 * c->bb) : c->ctr_set_key(&h, key, 16, 7);
+        if (kind == 2) ra &= c->ctr_set_tweak(&h, tw, tl);
+        ra &= c->ctr_set_counter(&h, ctr, c->bb); ra &= c->ctr_encrypt(w1, in, 200, &h);              /* first use: lazily built state is now current */
+        memcpy(last, key, 48);
+        for (k = 0; k < N; ++k) {
+            vh_rand_bytes(&q, last, kind == 2 ? tl : 32);
+            if (kind == 0) ra &= c->ctr_set_key(&h, last, 16, 7); else if (kind == 1) ra &= c->ctr_set_tkey(&h, last, 2 * c->bb); else ra &= c->ctr_set_tweak(&h, last, tl);
+        }
+        ra &= c->ctr_set_counter(&h, ctr, c->bb); ra &= c->ctr_encrypt(o1, in, sizeof(in), &h);
+        c->ctr_cleanup(&h);
+        /* fresh object that only ever sees the final value */
+        rb &= c->ctr_init(&f);
+        if (kind == 0) rb &= c->ctr_set_key(&f, last, 16, 7);
+        else if (kind == 1) rb &= c->ctr_set_tkey(&f, last, 2 * c->bb);
+        else { rb &= tweaked ? c->ctr_set_tkey(&f, key, 2 * c->bb) : c->ctr_set_key(&f, key, 16, 7); rb &= c->ctr_set_tweak(&f, last, tl); }
+        rb &= c->ctr_set_counter(&f, ctr, c->bb); rb &= c->ctr_encrypt(o2, in, sizeof(in), &f);
+        c->ctr_cleanup(&f);
+        vh_call_end();
+        (void)w2;
+        VH_COUNT("change_count_histories", 1); VH_MAXC("max_consecutive_key_or_tweak_changes_on_one_object", N);
+        if (ra != 1 || rb != 1 || memcmp(o1, o2, sizeof(in))) {
+            static const char *const kn[3] = {"set_key", "set_tweaked_key", "set_tweak"}; char key_[220], d[260];
+            snprintf(key_, sizeof(key_), "%s:%s:%s:result-depends-on-the-number-of-earlier-%s-calls", prop, c->name, vh_backend_names[be], kn[kind]);
+            snprintf(d, sizeof(d), "{\"cipher\":\"%s\",\"backend\":\"%s\",\"changes\":%u,\"kind\":\"%s\",\"rets\":[%d,%d],\"driver\":\"drv_ctr\",\"mode\":\"xbe\",\"case\":%llu}", c->name, vh_backend_names[be], N, kn[kind], ra, rb, (unsigned long long)idx);
+            vh_violation(key_, d, d);
+        }
+    }
+}
+
 static void one_case(uint64_t idx)
 {
     vh_rng r;
@@ -305,6 +352,7 @@ static void one_case(uint64_t idx)
         vh_case_begin(idx, pfx, d.p); sb_free(&d);
     }
     if (!strcmp(vh_arg_mode, "xbe") && idx % 40 == 17) { long_stream_rekey(idx, c, &r); return; }
+    if (!strcmp(vh_arg_mode, "xbe") && idx % 40 == 23) { change_count_case(idx, c, &r); return; }
     if (!strcmp(vh_arg_mode, "model") && idx < nstruct) { gen_structured(&H, c, idx / CIPH_N, &r); VH_COUNT("structured_cases", 1); }
     else chist_gen(&H, c, &r, g);
     observe(&H);
